@@ -484,7 +484,28 @@ def _inline_helpers(prog: Program, cls: ClassInfo, fn: ast.FunctionDef, exclude:
         _inline_helpers(prog, cls, fn, exclude, depth + 1)
 
 
-def _merge_adjacent(stmts: List[ast.stmt], counts: Dict[str, int], loads: Dict[str, int]) -> List[ast.stmt]:
+def _return_pairs(fn: ast.AST) -> Dict[str, int]:
+    """name -> number of `name = E; return name` statement pairs"""
+    pairs: Dict[str, int] = {}
+    for n in ast.walk(fn):
+        for fld in ("body", "orelse", "finalbody"):
+            b = getattr(n, fld, None)
+            if isinstance(b, list):
+                for a, r in zip(b, b[1:]):
+                    if isinstance(a, ast.Assign) and len(a.targets) == 1 and isinstance(a.targets[0], ast.Name) and isinstance(r, ast.Return) \
+                            and isinstance(r.value, ast.Name) and r.value.id == a.targets[0].id:
+                        pairs[r.value.id] = pairs.get(r.value.id, 0) + 1
+        if isinstance(n, ast.Try):
+            for h in n.handlers:
+                for a, r in zip(h.body, h.body[1:]):
+                    if isinstance(a, ast.Assign) and len(a.targets) == 1 and isinstance(a.targets[0], ast.Name) and isinstance(r, ast.Return) \
+                            and isinstance(r.value, ast.Name) and r.value.id == a.targets[0].id:
+                        pairs[r.value.id] = pairs.get(r.value.id, 0) + 1
+    return pairs
+
+
+def _merge_adjacent(stmts: List[ast.stmt], counts: Dict[str, int], loads: Dict[str, int], pairs: Optional[Dict[str, int]] = None) -> List[ast.stmt]:
+    pairs = pairs or {}
     """`x = E; return x` -> `return E` and `c = E; if c: ..` -> `if E: ..` for a local that is assigned once and read once: the value is
     evaluated at the same point either way, whatever E does"""
     out: List[ast.stmt] = []
@@ -494,13 +515,19 @@ def _merge_adjacent(stmts: List[ast.stmt], counts: Dict[str, int], loads: Dict[s
         for fld in ("body", "orelse", "finalbody"):
             b = getattr(s, fld, None)
             if isinstance(b, list) and b and isinstance(b[0], ast.stmt):
-                setattr(s, fld, _merge_adjacent(b, counts, loads))
+                setattr(s, fld, _merge_adjacent(b, counts, loads, pairs))
         if isinstance(s, ast.Try):
             for h in s.handlers:
-                h.body = _merge_adjacent(h.body, counts, loads)
+                h.body = _merge_adjacent(h.body, counts, loads, pairs)
         nxt = stmts[i + 1] if i + 1 < len(stmts) else None
         if isinstance(s, ast.Assign) and len(s.targets) == 1 and isinstance(s.targets[0], ast.Name) and nxt is not None:
             name = s.targets[0].id
+            if isinstance(nxt, ast.Return) and isinstance(nxt.value, ast.Name) and nxt.value.id == name \
+                    and loads.get(name, 0) == pairs.get(name, -1) and counts.get(name, 0) == pairs.get(name, -1):
+                # every read of the name is such a `return name` right after an assignment to it
+                out.append(ast.copy_location(ast.Return(value=s.value), s))
+                i += 2
+                continue
             if counts.get(name, 0) == 1 and loads.get(name, 0) == 1:
                 if isinstance(nxt, ast.Return) and isinstance(nxt.value, ast.Name) and nxt.value.id == name:
                     out.append(ast.copy_location(ast.Return(value=s.value), s))
@@ -527,7 +554,7 @@ def normalise_function(fn: ast.FunctionDef, prog: Optional[Program] = None) -> N
     for x in ast.walk(fn):
         if isinstance(x, ast.Name) and isinstance(x.ctx, ast.Load):
             loads[x.id] = loads.get(x.id, 0) + 1
-    fn.body = _merge_adjacent(fn.body, counts, loads)
+    fn.body = _merge_adjacent(fn.body, counts, loads, _return_pairs(fn))
     _propagate(fn, prog)
     fn.body = _fix_ifs(fn.body)
 
